@@ -113,6 +113,10 @@ def gen_table(rng, cycles=None, allow_zero_only=False):
             mc_ = int(rng.integers(0, budget + 1)) if rng.random() < 0.5 else 0
         budget -= mc_
         table.append({"name": f"m{i}", "interval": interval, "weight": w, "min": mc_})
+    if rng.random() < 0.25:
+        # names are arbitrary strings: the empty string, a name that looks like a number, a long one with spaces
+        for t_, nm_ in zip(table, rng.permutation(["", "0", "False", "a move with spaces", "None"])):
+            t_["name"] = str(nm_)
     return cycles, table
 
 
